@@ -4,8 +4,17 @@ ID=$1; N=$2
 WT=/var/tmp/slipwork/seed-$ID-$N
 [ -d $WT ] || git -C /repo worktree add -q --detach $WT HEAD
 python3 - "$ID" "$WT" <<'PY'
-import json,sys
+import json,sys,glob
 pid,wt=sys.argv[1:3]
+# places that earlier changes (by other people) already used: the new change has to be somewhere else
+used=[]
+for f in sorted(glob.glob('/verif/seeded/%s-*/meta.json'%pid)):
+    try: m=json.load(open(f))
+    except Exception: continue
+    used.append("%s: %s"%(", ".join(m.get('files') or []), (m.get('summary') or '').split('. ')[0][:200]))
+avoid=""
+if used:
+    avoid="\nOther people have already made changes of this kind at the following places; yours must use a DIFFERENT mechanism and a different function (ideally a different file):\n"+"".join("  - %s\n"%u for u in used)
 for l in open('/verif/properties.jsonl'):
     p=json.loads(l)
     if p['id']==pid: break
@@ -21,7 +30,7 @@ YOUR TASK: make ONE small, realistic change to slip's source code in {wt} that B
   (a) the project still compiles, and
   (b) the existing test suite still passes: run `/var/tmp/slipwork/seedtools/baseline.sh {wt}` (takes 20-60 s, copies the tree and runs the whole pinned suite); it must print a line ending in `missing 0`.
 The change should look like a plausible regression a developer could introduce (an optimisation, a refactoring slip, a boundary condition, a dropped copy or lock, a cache that is not invalidated, ...), and it should need something SPECIFIC to manifest — a multi-step sequence of operations, an unusual input or size, a particular interleaving, or two cooperating sites that each look fine alone — not something that ordinary use or a one-line smoke test would expose at once. Do not add dead code, comments announcing the bug, or special-casing of magic constants that no maintainer would write.
-
+{avoid}
 Also write a DEMONSTRATION: a small Go test (e.g. {wt}/seed/demo/demo_test.go in package demo, importing github.com/ohler55/slip and _ "github.com/ohler55/slip/pkg" and evaluating Lisp with slip.ReadString(src, scope).Eval(scope, nil) inside a recover) that FAILS with your change and PASSES without it (verify both by un-applying and re-applying your patch: `git diff -- . ':!seed' > seed/patch.diff; git apply -R seed/patch.diff; <run demo>; git apply seed/patch.diff`. NEVER use `git stash`: the stash is shared between all worktrees of the repository and other people work in them). Run it with: cd {wt} && GOFLAGS=-mod=mod GOPROXY=off go test -vet=off -count=1 ./seed/demo/ (do not set GOTOOLCHAIN or GOSUMDB; never run the cmd/slip binary, it blocks on stdin).
 
 Deliver inside {wt}/seed/:
